@@ -226,7 +226,9 @@ def build_traces(path, tier, seed):
             sc_ = float(10.0 ** rng.uniform(-10, -8))
             sigs = [s * sc_ + (0.0 if j == master else sc_ * rng.uniform(0.5, 2.0)) for j, s in enumerate(sigs)]
         elif i % 4 == 3:     # records riding on a large mean level with small offsets
-            sigs = [250.0 + 0.002 * s + (0.0 if j == master else 1e-3 * rng.uniform(0.5, 2.0)) for j, s in enumerate(sigs)]
+            # (level / sample-to-sample change from 1e5 to 1e9: the residuals are formed from differences, not from the levels)
+            lev_, amp_ = [(250.0, 0.002), (2.5e6, 0.002), (1.0e8, 1.0), (250.0, 0.002)][int(rng.integers(4))]
+            sigs = [lev_ + amp_ * s + (0.0 if j == master else 1e-3 * rng.uniform(0.5, 2.0)) for j, s in enumerate(sigs)]
         dt = 0.01
         e_idx = int(rng.integers(4, n // 2))
         s_idx = 0
@@ -242,7 +244,12 @@ def build_traces(path, tier, seed):
             wm = 1               # the record ends before the window would start: use the default window instead
         with warnings.catch_warnings():
             warnings.simplefilter("ignore")
-            c = eqsig.Cluster([s.copy() for s in sigs], dt, master_index=gen.intlike(rng, master), stypes="acc" if rng.integers(2) else "custom")
+            if k >= 2 and rng.integers(3) == 0:
+                # the master is chosen AFTER construction (master_index is a public attribute): built with another one first
+                c = eqsig.Cluster([s.copy() for s in sigs], dt, master_index=int((master + 1 + rng.integers(k - 1)) % k), stypes="acc" if rng.integers(2) else "custom")
+                c.master_index = master
+            else:
+                c = eqsig.Cluster([s.copy() for s in sigs], dt, master_index=gen.intlike(rng, master), stypes="acc" if rng.integers(2) else "custom")
 
             def _same_start():
                 if wm == 0:
